@@ -56,3 +56,39 @@ example : (step { bounds := { axes := some (⟨0, 0, 0⟩, ⟨10, 10, 10⟩) } }
 example : (step {} (.move false { x := some (.fin 1) } [("F", .fin 100), ("S", .fin (-1))] 0)).out
     = .error .valueError := by decide
 example : (step {} (.halt .waitBed [("S", .fin 100), ("P", .nan)])).out = .error .valueError := by decide
+
+/-- the history with every rejected call deleted -/
+def eraseRejected : B → List Op → List Op
+  | _, [] => []
+  | b, op :: ops =>
+    match (step b op).out with
+    | .ok => op :: eraseRejected (step b op).b ops
+    | .error _ => eraseRejected b ops
+
+/-- no rejected call of the history sits at the excluded call site -/
+def NoLeakSite : B → List Op → Prop
+  | _, [] => True
+  | b, op :: ops => ((step b op).out ≠ .ok → ¬ BypassWithHooks b op) ∧ NoLeakSite (step b op).b ops
+
+/-- **As if the rejected calls had never been made**: deleting every rejected call from any history
+    leaves the final builder unchanged — and, away from the excluded call site, the whole output too. -/
+theorem C05_history_erasure (ops : List Op) : ∀ b : B,
+    (run b (eraseRejected b ops)).1 = (run b ops).1 ∧
+    (NoLeakSite b ops → (run b (eraseRejected b ops)).2 = (run b ops).2) := by
+  induction ops with
+  | nil => intro b; simp [eraseRejected, run]
+  | cons op ops ih =>
+    intro b
+    cases hout : (step b op).out with
+    | ok =>
+      obtain ⟨i1, i2⟩ := ih (step b op).b
+      simp only [eraseRejected, hout, run]
+      exact ⟨i1, fun hn => by rw [i2 hn.2]⟩
+    | error e =>
+      have hb := C05_reject_state b op e hout
+      obtain ⟨i1, i2⟩ := ih b
+      simp only [eraseRejected, hout, run, hb]
+      refine ⟨i1, fun hn => ?_⟩
+      have hs := C05_reject_silent_partial b op e hout (hn.1 (by simp [hout]))
+      have hn2 : NoLeakSite b ops := by have := hn.2; rwa [hb] at this
+      rw [hs, i2 hn2]; simp
